@@ -36,9 +36,6 @@ var txtprovHook []byte
 const (
 	siteConfig  = "cmd/core/txt-prov/config.go:loadConfig (names looked up in tools.PolicyControlMap / HashMaskMap / SignMaskMap, txt.HashMapping, tools.HashAlgMap)"
 	siteCfgFile = "cmd/core/txt-prov/tools.go:writePSPolicy2file"
-
-	kCfgVersion = "C17-config-version-form-refused"
-	kCfgSha1    = "C17-config-sha1-roundtrip"
 )
 
 // ---------------------------------------------------------------- the txt-prov process
@@ -248,8 +245,12 @@ func hexValue(s string) (*big.Int, bool) {
 	return new(big.Int).SetString(s, 16)
 }
 
-// smallHex: s is a hex string for a value in [lo, hi]
+// smallHex: s is a hex value of the config documentation - hex digits, bare or with one "0x" / "0X"
+// in front (the form of the shipped lcp.json and of README.md) - for a value in [lo, hi]
 func smallHex(s string, lo, hi int64) (int64, bool) {
+	if strings.HasPrefix(s, "0x") || strings.HasPrefix(s, "0X") {
+		s = s[2:]
+	}
 	v, ok := hexValue(s)
 	if !ok || !v.IsInt64() || v.Int64() < lo || v.Int64() > hi {
 		return 0, false
@@ -297,19 +298,15 @@ func readParams(in *cfgIn) (p cfgParams, ok bool) {
 	case in.Version == "":
 		// "Version field, 0x300 to 0x306 valid. If not set, 0x300 as default."
 		p.version, p.versionForm = 0x300, "unset"
-	case strings.HasPrefix(in.Version, "0x") || strings.HasPrefix(in.Version, "0X"):
-		// the form of the shipped lcp.json and of README.md ("Version": "0x302")
-		v, ok := smallHex(in.Version[2:], 0x300, 0x306)
-		if !ok {
-			return p, false
-		}
-		p.version, p.versionForm = uint16(v), "0x"
 	default:
 		v, ok := smallHex(in.Version, 0x300, 0x306)
 		if !ok {
 			return p, false
 		}
 		p.version, p.versionForm = uint16(v), "hex"
+		if strings.HasPrefix(in.Version, "0x") || strings.HasPrefix(in.Version, "0X") {
+			p.versionForm = "0x" // the form of the shipped lcp.json and of README.md ("Version": "0x302")
+		}
 	}
 	if p.alg, ok = cfgHashAlg[in.HashAlg]; !ok {
 		return p, false
@@ -369,12 +366,8 @@ func cfgErrClass(e string) int {
 func judgeConfig(in *cfgIn, want cfgParams, a *cfgAnswer) (fails [][2]string) {
 	add := func(known, msg string) { fails = append(fails, [2]string{known, msg}) }
 	if a.Err != "" || a.Nil {
-		if want.versionForm != "hex" && cfgErrClass(a.Err) == 6 && strings.Contains(a.Err, fmt.Sprintf("parsing %q", in.Version)) {
-			add(kCfgVersion, fmt.Sprintf("loadConfig refuses a config whose Version is %q (documented form: %s): %s", in.Version,
-				map[string]string{"0x": "as in the shipped lcp.json / README.md", "unset": "not set, 0x300 as default"}[want.versionForm], a.Err))
-		} else {
-			add("", fmt.Sprintf("loadConfig refused parameters the tool offers (err=%q nil=%v)", a.Err, a.Nil))
-		}
+		form := map[string]string{"hex": "", "0x": " (Version in the 0x form of the shipped lcp.json / README.md)", "unset": " (Version not set: 0x300 is the documented default)"}[want.versionForm]
+		add("", fmt.Sprintf("loadConfig refused parameters the tool offers%s (err=%q nil=%v)", form, a.Err, a.Nil))
 		return
 	}
 	p := a.policy()
@@ -471,19 +464,7 @@ func configRoundTrip(c *gal.Ctx, in *cfgIn, pol *tools.LCPPolicy2, a *cfgAnswer,
 		return
 	}
 	if f := eq2(pol, r.p2); f != "" {
-		n := specDigestLen[uint16(pol.HashAlg)]
-		cut := *pol
-		if n < len(cut.PolicyHash) {
-			for i := n; i < len(cut.PolicyHash); i++ {
-				cut.PolicyHash[i] = 0
-			}
-		}
-		if f == "PolicyHash" && n < len(pol.PolicyHash) && eq2(&cut, r.p2) == "" {
-			c.OracleFailKnown(idx, kCfgSha1, fmt.Sprintf("the policy loadConfig generates for HashAlg %q has a %d-byte PolicyHash %x although the digest of that algorithm has %d bytes; written and parsed back the policy differs: PolicyHash %x",
-				in.HashAlg, len(pol.PolicyHash), pol.PolicyHash, n, r.p2.PolicyHash), siteConfig, d)
-		} else {
-			c.OracleFail(idx, fmt.Sprintf("parse(serialise(p)) differs from the policy of the config in field %s: generated %+v, parsed %+v", f, *pol, *r.p2), siteParse, d)
-		}
+		c.OracleFail(idx, fmt.Sprintf("the policy loadConfig generates for HashAlg %q, written and parsed back, differs in field %s: generated %+v, parsed %+v", in.HashAlg, f, *pol, *r.p2), siteConfig, d)
 		return
 	}
 	c.OracleOK()
@@ -561,6 +542,17 @@ func joinFlags(c *gal.Ctx, flags []bool, names []string, order int) string {
 }
 
 func hexForm(c *gal.Ctx, v int) string {
+	s := hexDigits(c, v)
+	switch c.Rng.Intn(8) {
+	case 0:
+		return "0x" + s
+	case 1:
+		return "0X" + s
+	}
+	return s
+}
+
+func hexDigits(c *gal.Ctx, v int) string {
 	switch c.Rng.Intn(6) {
 	case 0:
 		return fmt.Sprintf("%X", v)
@@ -662,7 +654,8 @@ func spoil(c *gal.Ctx, in *cfgIn) {
 	switch c.Rng.Intn(8) {
 	case 0:
 		in.Version = oneOf(c, "2ff", "307", "0", "ffff", "204", "30", "3000", "10302", "ffff0302", "10000000000000302", "fffffffffffffffff", "ffffffffffff0303",
-			"3g2", "-302", "+302", " 302", "302 ", "3_02", "0x", "x302", "0x2ff", "0x307", "0x3g2", "302h", "0b11", "0o1402", "770", "30 2")
+			"3g2", "-302", "+302", " 302", "302 ", "3_02", "0x", "0X", "x302", "X302", "0x2ff", "0x307", "0X2FF", "0x3g2", "302h", "0b11", "0o1402", "770", "30 2",
+			"0x0x302", "0X0x302", "0x0X302", "0X0X302", "00x302", "0x 302", "0x-302", "0x+302", "0x10302", "0xffffffffffffffffff")
 		in.Note = "version"
 	case 1:
 		in.HashAlg = oneOf(c, "SHA512", "sha256", "Sha1", "SHA-256", "", "SM3", "SHA256 ", " SHA1", "SHA3_256", "SHA224", "MD5", "SHA1,SHA256", "0xB", "11")
@@ -671,11 +664,11 @@ func spoil(c *gal.Ctx, in *cfgIn) {
 		in.PolicyType = oneOf(c, "any", "ANY", "", "1", "0", "list", "LIST", "Signed", "Any ", " List", "Any,List")
 		in.Note = "policytype"
 	case 3:
-		in.SINITMin = oneOf(c, "100", "1ff", "zz", "0x10", "-1", " 5", "5 ", "ffffffffffffffffff", "10000000000000001", "1_0", "g", "0x")
+		in.SINITMin = oneOf(c, "100", "1ff", "zz", "0x100", "0x1ff", "-1", " 5", "5 ", "ffffffffffffffffff", "10000000000000001", "1_0", "g", "0x", "0X", "0x0x10", "x10", "0x0X10")
 		drop("SINITMinVersion")
 		in.Note = "sinitmin"
 	case 4:
-		in.MaxSINITMin = oneOf(c, "100", "1fe", "zz", "0xff", "-1", " 5", "ffffffffffffffffff", "10000000000000001", "f f", "0x")
+		in.MaxSINITMin = oneOf(c, "100", "1fe", "zz", "0x100", "0Xfff", "-1", " 5", "ffffffffffffffffff", "10000000000000001", "f f", "0x", "0X0xff", "xff")
 		drop("MaxSINITMinVersion")
 		in.Note = "maxsinitmin"
 	case 5:
@@ -767,14 +760,17 @@ func configCases(c *gal.Ctx) {
 		}
 	}
 	// ---- the documented forms of the version: "0x302" (shipped lcp.json, README.md), not set (default 0x300)
-	for i := 0; i < 14; i++ {
+	for i := 0; i < 28; i++ {
 		m := c.Rng.Intn(1 << 13)
 		in := randConfig(c, bitsOf(m&15, 4), bitsOf((m>>4)&7, 3), bitsOf(m>>7, 6), 2)
-		switch i % 3 {
+		switch i % 4 {
 		case 0:
 			in.Version = fmt.Sprintf("0x%x", 0x300+i%7)
 		case 1:
 			in.Version = fmt.Sprintf("0X%04X", 0x300+i%7)
+		case 2: // the prefix forms of the two SINIT versions
+			in.SINITMin, in.MaxSINITMin = fmt.Sprintf("0x%x", c.Rng.Intn(256)), fmt.Sprintf("0X%02X", c.Rng.Intn(256))
+			in.Unset = nil
 		default:
 			in.Version = ""
 			if i%2 == 0 {
@@ -788,6 +784,14 @@ func configCases(c *gal.Ctx) {
 	} else {
 		c.Count("shipped_lcp_json_unreadable")
 	}
+	// ---- a Version that is not a hex value must still be refused: a prefix alone, a second prefix,
+	// half a prefix, a letter that is no hex digit, a sign (no version can be carried for them)
+	for _, bad := range []string{"0x", "0X", "0x0x302", "0X0x302", "x302", "X302", "0x3g2", "0x-302", "302h"} {
+		m := c.Rng.Intn(1 << 13)
+		in := randConfig(c, bitsOf(m&15, 4), bitsOf((m>>4)&7, 3), bitsOf(m>>7, 6), 2)
+		in.Version, in.Note = bad, "version that is not a hex value"
+		configCase(c, t, "version-malformed", in, "", false)
+	}
 	// ---- configs with one key outside what the documentation offers (modelled, not judged)
 	for i := 0; i < c.Scale(170, 2000); i++ {
 		m := c.Rng.Intn(1 << 13)
@@ -796,24 +800,6 @@ func configCases(c *gal.Ctx) {
 		configCase(c, t, "spoiled", in, "", false)
 	}
 
-	// ---- probes of the listed findings (fixed witnesses)
-	{
-		in := &cfgIn{Version: "0x302", HashAlg: "SHA256", PolicyType: "Any", SINITMin: "0", MaxSINITMin: "ff", PolicyControl: "", HashMask: "SHA256", SignMask: "RSA2048SHA256", KeyStyle: 1}
-		p := filepath.Join(t.dir, "probe.json")
-		_ = os.WriteFile(p, in.fileContent(), 0o600)
-		a, _, err := t.load(p)
-		c.Probe(kCfgVersion, err == nil && cfgErrClass(a.Err) == 6, `loadConfig of the shipped sample config ("Version": "0x302", ...) fails: strconv.ParseUint(s, 16, 0) does not accept the 0x prefix`)
-		in.Version, in.HashAlg = "302", "SHA1"
-		_ = os.WriteFile(p, in.fileContent(), 0o600)
-		a, _, err = t.load(p)
-		rep := false
-		if err == nil && a.Err == "" && !a.Panicked && !a.Nil {
-			pol := a.policy()
-			r := callParse(write2(pol))
-			rep = r.err == nil && r.p2 != nil && eq2(pol, r.p2) == "PolicyHash"
-		}
-		c.Probe(kCfgSha1, rep, `loadConfig with "HashAlg": "SHA1" gives PolicyHash 00..1f (32 bytes); ParsePolicy(binary.Write(policy)) returns PolicyHash 00..13 followed by zeros`)
-	}
 	if t.dead != "" {
 		c.OracleFail(-1, t.dead, siteConfig, nil)
 	}
